@@ -35,7 +35,7 @@ CORPUS_B = [
 
 
 def run(ctx):
-    ctx.audit(extra_modules=lean_extra())
+    ctx.audit(extra_modules=lean_extra("C04"))
     n = 150 if not ctx.thorough() else 5000
     graphcheck.run_family(ctx, n, ASPECTS, CHECKS, SIGS_A, corpus=CORPUS_A, flavours=("future", "coro", "tornado"),
                           fail_prob=0.15, p_sinkfail=0.15)
@@ -50,7 +50,7 @@ def run(ctx):
 
 
 def replay(ctx, data):
-    ctx.audit(extra_modules=lean_extra())
+    ctx.audit(extra_modules=lean_extra("C04"))
     case = data["case"]
     if any(op["op"] in ("advance", "settle", "jobdone", "jobfail") for op in case["ops"]) or any(n["kind"] in ac.HOLDING for n in case["nodes"]):
         ac.evaluate(ctx, case, ac.rerun(case), ["early"], SIGS_B)
